@@ -450,6 +450,10 @@ def foreign_items(kinds, model):
         inner = path("CArc", VOID) if has_arc else prim("u64")
         its.append(typedef("TaggedHandle", [], path("Tagged", inner), None, True))
         args.append(("handle", ptr(path("TaggedHandle"), False)))
+    # the runtime helper types used directly by exported functions (a library that exports helpers but no object or group)
+    if "runtime_only" in kinds:
+        args.append(("boxed", path("CBox", VOID)))
+        args.append(("shared", ptr(path("CArc", VOID), True)))
     # users of `const TypeLayout *` (what a crate built with layout checks exports): TypeLayout undeclared (the tool supplies a
     # forward declaration), declared as a struct, or (C++) an alias of a user struct
     if "layout_undeclared" in kinds or "layout_struct" in kinds or "layout_alias" in kinds:
